@@ -14,7 +14,7 @@ VERIF = os.path.dirname(os.path.dirname(os.path.abspath(__file__)))
 LEVEL = {
  "C01": ("theorems: tokenizer inverts any padded rendering, unquote/quote, dispatch by prefix, assembly of segments for all item lists, every well-formed value is the parse of its canonical text (C01_canonical_text) and of every other presentation reachable by the closure of the presentation changes (C01_styled_text); a decimal duration with at most nine fractional digits below 2^20 s is read to exactly its nanosecond count (C01_duration_exact); near-miss tag names are unknown tags (C01_near_miss_names); correspondence: impl = extracted model = generator's RFC-level expectation on structured playlists", "3 (C01)"),
  "C02": ('theorems: source order, shared lexical layer, enum tables regenerated from source, canonical text and every other presentation of a well-formed master value parse to it (C02_canonical_text, C02_styled_text); correspondence against an independent expectation over structured master playlists', "3 (C02)"),
- "C03": ("theorems on the writer/reader key-state duality at item level, the text-level round trip for every well-formed parse result (C03_roundtrip), and the float / duration parts of well-formedness for everything the reader accepts (C03_float_hypotheses); correspondence + direct oracle (dump and text fixed point) over exhaustive key histories and random playlists", "3 (C03)"),
+ "C03": ("theorems on the writer/reader key-state duality at item level, the text-level round trip for every parse result with durations below 2^20 s and plain SCTE35 values, with no hypothesis on floats (C03_roundtrip_parsed); correspondence + direct oracle (dump and text fixed point) over exhaustive key histories and random playlists", "3 (C03)"),
  "C04": ("theorems: master writer has no state; value round trips (integers, enums); correspondence + direct oracle over structured master playlists", "3 (C04)"),
  "C05": ('theorems: no entry point of the model yields Panic for any string; the index-level model of the tokenizer / unquote / tag (byte offsets, panicking slices, checked subtraction) refines the structural model for every string (C05_tokenizer_indices, C05_unquote_slice, C05_tag_split); tokenizer progress; correspondence on returned/panicked over near-valid, boundary and random inputs; stress inputs each in its own process of an unoptimised build; time scaling measured in the thorough tier (partial)', "3 (C05)"),
  "C06": ("theorem: the parser's key list after any history is exactly the RFC 8216 4.3.2.4 keys in effect, one per format, in tag order; segment/map snapshots; correspondence + independent oracle, exhaustive to a bound", "3 (C06)"),
